@@ -2,6 +2,7 @@ package main
 
 import (
 	"fmt"
+	"go/ast"
 	"os"
 	"sort"
 	"strings"
@@ -64,6 +65,14 @@ func readOnlyAPI(c *Ctx) []*ssa.Function {
 			}
 		}
 		if mut || fn.Name() == "init" {
+			continue
+		}
+		// The property speaks about the operations a caller can invoke. An unexported helper that
+		// fills a parameter by design (an output slice, an edge under construction) is judged
+		// through its callers: its writes appear in their summaries with the caller's own origins.
+		// Unexported functions nobody in the module calls directly (interface implementations such
+		// as flatString) stay in, so nothing reachable only by dynamic dispatch is lost.
+		if !ast.IsExported(fn.Name()) && hasStaticCaller(c, fn) {
 			continue
 		}
 		out = append(out, fn)
@@ -153,7 +162,7 @@ func runC11(c *Ctx) {
 			}
 		}
 	}
-	c.floor(R, 60, "≈ 70 (function, operand) pairs in the read-only API on the pinned tree")
+	c.floor(R, 40, "46 (function, operand) pairs in the exported read-only API plus dynamically dispatched helpers")
 	c.CallSites += len(o.cg.Nodes)
 }
 
@@ -180,4 +189,20 @@ func describeMuts(c *Ctx, fname, pname string, ms []mutation) string {
 		parts = append(parts[:4], fmt.Sprintf("… and %d more", len(parts)-4))
 	}
 	return fmt.Sprintf("%s writes memory of its operand %s: %s", fname, pname, strings.Join(parts, "; "))
+}
+
+// hasStaticCaller: some module function calls fn by a statically resolved call.
+func hasStaticCaller(c *Ctx, fn *ssa.Function) bool {
+	for _, g := range c.P.Funcs {
+		for _, b := range g.Blocks {
+			for _, ins := range b.Instrs {
+				if call, ok := ins.(ssa.CallInstruction); ok {
+					if sc := call.Common().StaticCallee(); sc != nil && (sc == fn || sc.Origin() == fn) {
+						return true
+					}
+				}
+			}
+		}
+	}
+	return false
 }
